@@ -191,6 +191,7 @@ pub fn check_process(c: &ProcCase) -> CheckResult {
 pub fn run(ctx: &Ctx) {
     set_rule("C11", "(size from {0, 1, 65535, 65536, 65537, 3*65536, ...} and log-uniform up to the tier bound, mode, read-size pattern): the plaintext is a function of the offset produced on the fly, encryption output is piped through a bounded pre-allocated ring into decryption on a second thread, the final sink compares every buffer with the generator. Oracles: thread-local peak live heap of each library call <= the same call on a 256 KiB input + 128 KiB and <= 4 MiB (+34 MiB with scrypt); with full reads, when more than two further chunks have been consumed the earlier chunk has been written (both directions, inline counters); every byte and the total length arrive intact. Non-trivial = size >= 3 chunks; distinct by (size, mode, pattern)");
     ctx.assume("the harness objects allocate nothing during the measured calls, so thread-local heap figures are the library's alone");
+    crate::core::HANG_LIMIT.store(if ctx.quick() { 300 } else { 3600 }, std::sync::atomic::Ordering::Relaxed);
     let _ = baseline(Mode::Key); let _ = baseline(Mode::Pass);
     let maxlog = if ctx.quick() { 26 } else { 31 };
     let fixed: Vec<Case> = [0u64, 1, 65535, 65536, 65537, 3 * 65536, 3 * 65536 + 1, 10 * 65536, 1 << 24].iter().flat_map(|&size| [Mode::Key, Mode::Pass].into_iter().map(move |mode| Case { size, mode, seed: size + 3, read_var: 0 })).collect();
